@@ -82,6 +82,114 @@ func collect(dir string, only func(string) bool) (map[string][]entry, error) {
 	return out, nil
 }
 
+// reads collects, per function, the constant-bounded reads of byte slices: `x[lo:hi]`, `x[k]` and the little-endian
+// helpers u16/u32/u64/i16/i32/i64(x, off), each with the left-hand side it is assigned to (if it is the right-hand
+// side of a plain assignment or := definition).  Offsets are evaluated by go/types (named constants are resolved).
+type readFact struct {
+	lhs    string
+	lo, hi int64
+	pos    token.Pos
+}
+
+func collectReads(dir string, only func(string) bool) (map[string][]readFact, error) {
+	fset := token.NewFileSet()
+	ents, err := os.ReadDir(dir)
+	if err != nil {
+		return nil, err
+	}
+	var files []*ast.File
+	for _, e := range ents {
+		n := e.Name()
+		if e.IsDir() || !strings.HasSuffix(n, ".go") || strings.HasSuffix(n, "_test.go") || !only(n) {
+			continue
+		}
+		f, err := parser.ParseFile(fset, filepath.Join(dir, n), nil, parser.SkipObjectResolution)
+		if err != nil {
+			return nil, err
+		}
+		files = append(files, f)
+	}
+	info := &types.Info{Types: map[ast.Expr]types.TypeAndValue{}}
+	conf := types.Config{Importer: stubImporter{importer.Default()}, Error: func(error) {}, FakeImportC: true}
+	conf.Check("p", fset, files, info)
+	cint := func(e ast.Expr) (int64, bool) {
+		if e == nil {
+			return 0, false
+		}
+		tv, ok := info.Types[e]
+		if !ok || tv.Value == nil || tv.Value.Kind() != constant.Int {
+			return 0, false
+		}
+		v, ok := constant.Int64Val(tv.Value)
+		return v, ok
+	}
+	widths := map[string]int64{"u16": 2, "i16": 2, "u32": 4, "i32": 4, "u64": 8, "i64": 8}
+	out := map[string][]readFact{}
+	for _, f := range files {
+		for _, d := range f.Decls {
+			fd, ok := d.(*ast.FuncDecl)
+			if !ok || fd.Body == nil {
+				continue
+			}
+			name := fd.Name.Name
+			if fd.Recv != nil && len(fd.Recv.List) > 0 {
+				var sb strings.Builder
+				printer.Fprint(&sb, fset, fd.Recv.List[0].Type)
+				name = strings.Trim(sb.String(), "*") + "_" + name
+			}
+			lhsOf := map[ast.Node]string{}
+			ast.Inspect(fd.Body, func(n ast.Node) bool {
+				if as, ok := n.(*ast.AssignStmt); ok && len(as.Lhs) == len(as.Rhs) {
+					for i, r := range as.Rhs {
+						var sb strings.Builder
+						printer.Fprint(&sb, fset, as.Lhs[i])
+						l := sb.String()
+						ast.Inspect(r, func(m ast.Node) bool {
+							if m != nil {
+								if _, seen := lhsOf[m]; !seen {
+									lhsOf[m] = l
+								}
+							}
+							return true
+						})
+					}
+				}
+				return true
+			})
+			ast.Inspect(fd.Body, func(n ast.Node) bool {
+				switch x := n.(type) {
+				case *ast.SliceExpr:
+					lo, ok1 := cint(x.Low)
+					hi, ok2 := cint(x.High)
+					if ok1 && ok2 {
+						out[name] = append(out[name], readFact{lhsOf[n], lo, hi, x.Pos()})
+					}
+				case *ast.IndexExpr:
+					if k, ok := cint(x.Index); ok {
+						if tv, ok := info.Types[x.X]; ok {
+							if sl, ok := tv.Type.Underlying().(*types.Slice); ok {
+								if b, ok := sl.Elem().Underlying().(*types.Basic); ok && b.Kind() == types.Uint8 {
+									out[name] = append(out[name], readFact{lhsOf[n], k, k + 1, x.Pos()})
+								}
+							}
+						}
+					}
+				case *ast.CallExpr:
+					if id, ok := x.Fun.(*ast.Ident); ok && len(x.Args) == 2 {
+						if w, ok := widths[id.Name]; ok {
+							if off, ok := cint(x.Args[1]); ok {
+								out[name] = append(out[name], readFact{lhsOf[n], off, off + w, x.Pos()})
+							}
+						}
+					}
+				}
+				return true
+			})
+		}
+	}
+	return out, nil
+}
+
 func leanIdent(s string) string {
 	return strings.NewReplacer(".", "_", "-", "_").Replace(s)
 }
@@ -168,4 +276,29 @@ func main() {
 		fmt.Printf("end PgVerif.Generated.Src.%s\n", leanIdent(strings.TrimSuffix(f, ".go")))
 	}
 	fmt.Printf("namespace PgVerif.Generated.Src\ndef constCount : Nat := %d\nend PgVerif.Generated.Src\n", total)
+	// constant-bounded reads per function (left-hand side, from, to), in source order
+	reads, err := collectReads(filepath.Join(repo, "pgdump"), func(string) bool { return true })
+	if err != nil {
+		fmt.Fprintln(os.Stderr, err)
+		os.Exit(1)
+	}
+	var fns []string
+	for k := range reads {
+		fns = append(fns, k)
+	}
+	sort.Strings(fns)
+	fmt.Println("namespace PgVerif.Generated.SrcReads")
+	for _, fn := range fns {
+		rs := reads[fn]
+		sort.SliceStable(rs, func(i, j int) bool { return rs[i].pos < rs[j].pos })
+		var items []string
+		for _, r := range rs {
+			if r.lo < 0 || r.hi < 0 {
+				continue
+			}
+			items = append(items, fmt.Sprintf("(%q.toList, %d, %d)", r.lhs, r.lo, r.hi))
+		}
+		fmt.Printf("def %s : List (List Char × Nat × Nat) := [%s]\n", leanIdent(fn), strings.Join(items, ", "))
+	}
+	fmt.Println("end PgVerif.Generated.SrcReads")
 }
